@@ -567,11 +567,12 @@ def aliasableSites : List RealSite :=
   RealSite.all.filter fun s => !(classify s).congruent && (classify s).freshOrImmutable
 
 theorem goodSites_eq : goodSites =
-    [.strload, .dateparse, .getItemsIter, .delayedResolved, .inspectPredicate, .cachedSignature,
-     .cachedSimpleAttrs, .futureTransform, .getBinding] := by decide
+    [.strload, .dateparse, .getItemsIter, .delayedResolved, .cachedSignature, .cachedSimpleAttrs,
+     .futureTransform, .getBinding] := by decide
 
 theorem aliasableSites_eq : aliasableSites =
-    [.marshaller, .unmarshaller, .codec, .typeContext, .typingGenericCache, .inspectUnwrap, .resolveModuleName] := by
+    [.marshaller, .unmarshaller, .codec, .typeContext, .typingGenericCache, .inspectPredicate, .inspectUnwrap,
+     .resolveModuleName] := by
   decide
 
 /-- the two sites that hand out a cached mutable object are not public: `_strload` (behind
